@@ -73,9 +73,8 @@ IdOfPath(rawComps, isDir) ==
 Spellings(p) ==
     IF p = <<>> THEN {p}
     ELSE {p} \cup {<<Cur>> \o p} \cup {<<N(n), Par>> \o p : n \in Names}
-         \* two (and three) consecutive parent components: every one of them takes one name back
+         \* two consecutive parent components: every one of them takes one name back
          \cup {<<N(n), N(m), Par, Par>> \o p : n, m \in Names}
-         \cup {<<N(n), N(m), N(n), Par, Par, Par>> \o p : n, m \in Names}
          \cup (IF Len(p) >= 2 THEN {SubSeq(p, 1, 1) \o <<N(n), N(m), Par, Par>> \o SubSeq(p, 2, Len(p)) : n, m \in Names} ELSE {})
          \cup (IF Len(p) >= 2 THEN {SubSeq(p, 1, 1) \o <<Cur>> \o SubSeq(p, 2, Len(p)),
                                    SubSeq(p, 1, 1) \o <<N(Head(p).name), Par>> \o SubSeq(p, 2, Len(p)) \o <<>>} \ {<<>>}
